@@ -75,9 +75,10 @@ class Drv:
         except Exception:  # noqa
             self.p.kill()
 
-    def evaluate(self, oid, pt):
-        """returns (status, value, calls, solved) with status in val/raise/error/missing"""
-        r = self.ask('ev %d %s' % (oid, fs(pt)))
+    def evaluate(self, oid, pt, op='ev'):
+        """returns (status, value, calls, solved) with status in val/raise/error/missing.  op='pure': the model's
+        history-free `evalPure` (no state read or written, no calls reported)"""
+        r = self.ask('%s %d %s' % (op, oid, fs(pt)))
         solved = False
         if r.startswith('solve '):
             t = r.split()
@@ -576,6 +577,29 @@ def k_history(ctx, drv, sc, order, c, impl_out, tag):
         ctx.broke('correspondence', 'C14 %dD cache state %s' % (dim, tag),
                   dict(scenario=_short(sc), order=list(order), model_nodes=len(data), impl_nodes=len(idata),
                        model_cells=sorted(cells)[:10], impl_cells=sorted(icells)[:10]))
+    # round 6: the history-free specification `evalPure` (what every history theorem is stated against) is itself
+    # compared with the implementation: at every distinct point of this history the model's evalPure, which reads no
+    # cache state, must give the status and value the implementation returned there (whatever had been evaluated before)
+    if ok and sc.get('raising') is None:
+        seen = set()
+        for idx, (st, v, calls) in zip(order, impl_out):
+            if idx in seen or len(seen) >= 8:
+                continue
+            seen.add(idx)
+            p = sc['points'][idx]
+            mst, mv, _, _ = drv.evaluate(oid, p, op='pure')
+            ncmp += 1
+            ctx.count('K:pure:%dD:%s' % (dim, st))
+            good = mst == st and (st != 'val' or same_float(mv, v) or close(mv, v, 1e-9, 1e-12 * sc_scale))
+            if good and st == 'val':
+                ctx.count('K:pure:value-bit-exact' if same_float(mv, v) else 'K:pure:value-within-tolerance')
+            if not good:
+                ctx.disagreements += 1
+                ctx.count('disagreement:pure:%dD' % dim)
+                ctx.broke('correspondence', 'C14 %dD evalPure %s' % (dim, tag),
+                          dict(scenario=_short(sc), order=list(order), point=p,
+                               why='history-free model %s %r vs implementation %s %r' % (mst, mv, st, v)))
+                break
     return ncmp + 1
 
 
@@ -1320,6 +1344,7 @@ def run(ctx):
                         'the caching area is taken to include the documented EPSILON=1e-7 extension; points within 1.5e-7 outside the area are not judged by the outside-policy oracle (counted)',
                         'O(h^2) error bound is checked by S only (c = 1, H = largest node spacing per axis)']
     ctx.lean_check(['Cherab.Props.C14'], 'Cherab/Audit/C14.lean')
+    ctx.lean_check(['Cherab.Props.C14Exist'], 'Cherab/Audit/C14Exist.lean')
 
     corpus_stream(ctx)
     eps_absorbed_probe(ctx)
